@@ -182,7 +182,8 @@ def era_chains():
     # chain2t: the same pairings with a month/day/time UNTIL (extended scope only admits them), incl. UNTIL on a rule's own instant
     for a, b in (('9:30', '10:30'), ('-4:30', '-3:30'), ('10:00', '10:00')):
         for r0, r1 in itertools.product(kinds, repeat=2):
-            for tail in UNTIL_TAILS[1:] + [('Apr', 'Sun>=1', '2:00s'), ('Apr', 'Sun>=1', '3:00'), ('Mar', 'Sun>=8', '2:00'), ('Nov', 'Sun>=1', '2:00'), ('Nov', 'Sun>=1', '1:00')]:
+            for tail in UNTIL_TAILS[1:] + [('Apr', 'Sun>=1', '2:00s'), ('Apr', 'Sun>=1', '3:00'), ('Mar', 'Sun>=8', '2:00'), ('Nov', 'Sun>=1', '2:00'), ('Nov', 'Sun>=1', '1:00'),
+                                            ('Apr', 'Fri<=1', '2:00'), ('Jul', 'Wed>=30')]:   # day-of-week UNTILs that spill into the previous (Mar 30) / next (Aug 1) month in 2012; 'Mar Sun>=29 2:00' (= Apr 1, the AU rule's own day) only re-creates D19 under another key and is left out
                 add('chain2t', [(a, r0), (b, r1)], ['2012 ' + ' '.join(tail)])
     # chain3t: three eras with two month/day/time UNTILs in the same or in consecutive years
     T3 = [('Mar', 'lastSun', '1:00u'), ('Jun', '15', '0:00'), ('Oct', 'Sun>=1', '2:00s'), ('Nov', 'Sun>=1', '2:00')]
